@@ -35,6 +35,8 @@ type w1Row struct {
 	centroids      int
 	uniq           uint64 // ChUnique.Size(false) of the decoded state
 	uniqItems      int
+	uniqState      data_model.ChUnique // the decoded state, copied out of the column by value as the API's result callbacks do
+	uniqWire       []byte              // that state re-marshalled right after its own block was decoded
 	minHost        data_model.ArgMinStringFloat32
 	maxHost        data_model.ArgMaxStringFloat32
 	maxCountHost   data_model.ArgMaxStringFloat32
@@ -58,6 +60,9 @@ type w1Body struct {
 	sampled  []int32     // workload metrics for which the aggregator reported an insert sampling factor
 	slow     []w1SlowKey // rows of the low-resolution metric
 	parseErr string
+	// uniqChanged: key of a row whose retained uniq state no longer marshals to the bytes it marshalled to
+	// right after its block was decoded, i.e. decoding a later block changed a state handed out earlier
+	uniqChanged string
 }
 
 // w1ParseBody walks the RowBinary body column by column in the order of getTableDesc().
@@ -74,6 +79,13 @@ func w1ParseBody(body []byte) w1Body {
 	for {
 		it, err := r.ReadByte()     // index_type
 		if errors.Is(err, io.EOF) { // clean end: no byte of a next row
+			for i := range out.rows {
+				row := &out.rows[i]
+				if row.uniqWire != nil && !bytes.Equal(row.uniqState.MarshallAppend(nil), row.uniqWire) && out.uniqChanged == "" {
+					out.uniqChanged = row.key()
+				}
+				row.uniq, row.uniqItems = row.uniqState.Size(false), row.uniqState.ItemsCount()
+			}
 			return out
 		}
 		if err != nil {
@@ -109,11 +121,16 @@ func w1ParseBody(body []byte) w1Body {
 			row.centroidWeight += c.Weight
 			row.centroids++
 		}
+		// the uniq column is driven the way ch-go drives it for a SELECT result that arrives in several
+		// blocks (here: one block per row): Reset, then DecodeColumn; the row keeps its element by value
+		uq.Reset()
 		if err = uq.DecodeColumn(r, 1); err != nil {
 			return fail("uniq_state", err)
 		}
-		row.uniq = uq[0].Size(false)
-		row.uniqItems = uq[0].ItemsCount()
+		row.uniqState = uq[0]
+		if row.uniqState.ItemsCount() != 0 {
+			row.uniqWire = row.uniqState.MarshallAppend(nil)
+		}
 		if argBuf, err = row.minHost.ReadFrom(r, argBuf); err != nil {
 			return fail("min_host", err)
 		}
@@ -198,6 +215,10 @@ func (t *w1Transport) RoundTrip(req *http.Request) (*http.Response, error) {
 	}
 	slow := time.Duration(100+w.c.Keyed(2900, w1SaltCHAmt, uint64(idx), uint64(gen), uint64(sec), uint64(seq))) * time.Millisecond
 	healed := w.healed
+	var armed time.Duration
+	if fate == w1FateStored && rep.armSlow > 0 { // scheduling device of a graceful aggregator stop, not a fault
+		armed, rep.armSlow, rep.slowTaken = rep.armSlow, 0, true
+	}
 	w.mu.Unlock()
 
 	record := func(fate int, stored bool) {
@@ -247,6 +268,20 @@ func (t *w1Transport) RoundTrip(req *http.Request) (*http.Response, error) {
 		}
 		record(fate, true)
 		return okResp(), nil
+	}
+	if armed > 0 {
+		select {
+		case <-req.Context().Done():
+			record(w1FateCancelled, false)
+			return nil, req.Context().Err()
+		case <-time.After(armed):
+		}
+		w.mu.Lock()
+		alive := w.reps[idx].gen == gen && w.reps[idx].up
+		w.mu.Unlock()
+		if !alive {
+			return nil, errors.New("w1 fake clickhouse: this aggregator process does not exist any more")
+		}
 	}
 	if w.cfg.chLatency {
 		// not a fault: an insert takes a little time (1-50 ms and a sub-millisecond part that keeps its end
